@@ -52,6 +52,7 @@ StringDictionaryPFC::StringDictionaryPFC(IteratorDictString *it,
     this->bucketsize = 2;
   } else
     this->bucketsize = bucketsize;
+  bucketsize = this->bucketsize;
 
   this->buckets = 0;
   this->bytesStrings = 0;
